@@ -8,10 +8,21 @@ import Mathlib.Algebra.BigOperators.Group.List.Basic
 /-!
 # Helper lemmas about the model kernel `Ds.Kernel` at `α := ℚ`
 
-* `rankScores_closed` (K1): closed form of the backward loop.
-* `scatterAdd_getD`, `scatterAdd_perm` (K2): every unit is hit exactly once, at its rank.
-* `importances_getD`, `importances_getD_list`: explicit formula for the whole kernel.
-* `rankEquiv`, `nnGameU`: the 1-NN utility game over units, and the bridge to `Sh.nnGame`.
+All statements are about the executable model `Ds/Kernel.lean` instantiated at `Rat` with the core
+instances `Rat.instAdd/instSub/instDiv/instNatCast` (the ones the driver executes).
+
+* K1 `rankScores_closed`, `rankScores_length`: closed form of the backward loop `aux`.
+* K2 `scatterAdd_getD` (general: slot `u` receives `contrib order rs u`, the sum of the `rs[r]` with
+  `order[r] = u`), `scatterAdd_perm` (for a permutation: exactly `rs[rank of u]`), `isPerm_*`.
+* `pointAccum_getD`, `importances_getD_list`, `importances_getD`: explicit formula for one validation
+  point and for the whole kernel (`pointContrib`, `cols`, `colContrib`).
+* `nnGameU` (the 1-NN utility game over units), `nearest_spec`, `rankEquiv` (unit ↦ rank),
+  `nnGameU_eq` (bridge to `Sh.nnGame`), `pointContrib_eq_phi` (core of C01), `nnGameU_univ/empty`,
+  `sortsWeakly_isPerm/le`.
+* C07 helpers: `importances_perm`, `importances_dup`, `sortsWeakly_map`, `permN`, `relabel`,
+  `importances_relabel`, `isPerm_map_permN`, `rankScores_eq_of_const`, `pointContrib_symm(_adjacent)`.
+* C08 helpers: `lin`, `aux_lin`, `pointContrib_lin`, `importances_lin(_getD)`, `aux_shift`,
+  `pointContrib_shift`, `importances_shift`.
 -/
 
 open Finset
@@ -684,5 +695,206 @@ theorem pointContrib_symm_adjacent {n : ℕ} {order : List ℕ} (hp : isPerm n o
   rcases hk with rfl | rfl
   · rw [getD_idxOf hma]
   · rw [getD_idxOf hmb, hlab]
+
+/-! ### Helpers for C08 (linearity in the utilities) -/
+
+/-- the entrywise combination `a·x + b·y` -/
+def lin (a b : ℚ) (x y : ℚ) : ℚ := a * x + b * y
+
+theorem getD_zipWith {α β γ : Type} (f : α → β → γ) (l₁ : List α) (l₂ : List β) (d₁ : α) (d₂ : β) (k : ℕ)
+    (h : l₁.length = l₂.length) :
+    (List.zipWith f l₁ l₂).getD k (f d₁ d₂) = f (l₁.getD k d₁) (l₂.getD k d₂) := by
+  induction l₁ generalizing l₂ k with
+  | nil =>
+    cases l₂ with
+    | nil => simp
+    | cons y ys => simp at h
+  | cons x xs ih =>
+    cases l₂ with
+    | nil => simp at h
+    | cons y ys =>
+      cases k with
+      | zero => simp
+      | succ k =>
+        simp only [List.zipWith_cons_cons, List.getD_cons_succ]
+        exact ih ys k (by simpa using h)
+
+theorem getD_map_default {α β : Type} (f : α → β) (l : List α) (d : α) (k : ℕ) :
+    (l.map f).getD k (f d) = f (l.getD k d) := by
+  simp only [List.getD_eq_getElem?_getD, List.getElem?_map]
+  cases l[k]? <;> simp
+
+theorem aux_lin (a b : ℚ) (L₁ L₂ : List ℚ) (i : ℕ) (h : L₁.length = L₂.length) :
+    aux (List.zipWith (lin a b) L₁ L₂) i
+      = (lin a b (aux L₁ i).1 (aux L₂ i).1, List.zipWith (lin a b) (aux L₁ i).2 (aux L₂ i).2) := by
+  induction L₁ generalizing L₂ i with
+  | nil =>
+    cases L₂ with
+    | nil => simp [aux, lin]
+    | cons y ys => simp at h
+  | cons u t ih =>
+    cases L₂ with
+    | nil => simp at h
+    | cons u' t' =>
+      cases t with
+      | nil =>
+        cases t' with
+        | nil => simp [aux, lin]
+        | cons _ _ => simp at h
+      | cons v rest =>
+        cases t' with
+        | nil => simp at h
+        | cons v' rest' =>
+          have := ih (v' :: rest') (i + 1) (by simpa using h)
+          simp only [List.zipWith_cons_cons] at this ⊢
+          simp only [aux, this, List.zipWith_cons_cons, Prod.mk.injEq, List.cons.injEq, and_true]
+          refine ⟨?_, ?_⟩ <;> (unfold lin; ring)
+
+theorem rankScores_lin (a b : ℚ) (us₁ us₂ : List ℚ) (n₁ n₂ : ℚ) (h : us₁.length = us₂.length) :
+    rankScores (List.zipWith (lin a b) us₁ us₂) (lin a b n₁ n₂)
+      = List.zipWith (lin a b) (rankScores us₁ n₁) (rankScores us₂ n₂) := by
+  unfold rankScores
+  have : List.zipWith (lin a b) us₁ us₂ ++ [lin a b n₁ n₂] = List.zipWith (lin a b) (us₁ ++ [n₁]) (us₂ ++ [n₂]) := by
+    rw [List.zipWith_append h]; rfl
+  rw [this, aux_lin _ _ _ _ _ (by simp [h])]
+
+theorem contrib_lin (a b : ℚ) (order : List ℕ) (rs₁ rs₂ : List ℚ) (u : ℕ) (h : rs₁.length = rs₂.length) :
+    contrib order (List.zipWith (lin a b) rs₁ rs₂) u = lin a b (contrib order rs₁ u) (contrib order rs₂ u) := by
+  induction order generalizing rs₁ rs₂ with
+  | nil => simp [contrib, lin]
+  | cons o os ih =>
+    cases rs₁ with
+    | nil =>
+      cases rs₂ with
+      | nil => simp [contrib, lin]
+      | cons _ _ => simp at h
+    | cons x xs =>
+      cases rs₂ with
+      | nil => simp at h
+      | cons y ys =>
+        rw [List.zipWith_cons_cons, contrib_cons, contrib_cons, contrib_cons, ih xs ys (by simpa using h)]
+        unfold lin
+        split_ifs <;> ring
+
+theorem usOf_lin (a b : ℚ) (labels order : List ℕ) (U₁ U₂ : List ℚ) (n₁ n₂ : ℚ) (h : U₁.length = U₂.length) :
+    usOf labels order (List.zipWith (lin a b) U₁ U₂) (lin a b n₁ n₂)
+      = List.zipWith (lin a b) (usOf labels order U₁ n₁) (usOf labels order U₂ n₂) := by
+  unfold usOf
+  induction order with
+  | nil => simp
+  | cons o os ih =>
+    simp only [List.map_cons, List.zipWith_cons_cons]
+    rw [ih, getD_zipWith _ _ _ _ _ _ h]
+
+theorem pointContrib_lin (a b : ℚ) (labels order : List ℕ) (U₁ U₂ : List ℚ) (n₁ n₂ : ℚ) (u : ℕ)
+    (h : U₁.length = U₂.length) :
+    pointContrib labels order (List.zipWith (lin a b) U₁ U₂) (lin a b n₁ n₂) u
+      = lin a b (pointContrib labels order U₁ n₁ u) (pointContrib labels order U₂ n₂ u) := by
+  unfold pointContrib
+  rw [usOf_lin _ _ _ _ _ _ _ _ h, rankScores_lin _ _ _ _ _ _ (by rw [usOf_length, usOf_length]),
+    contrib_lin _ _ _ _ _ _ (by rw [rankScores_length, rankScores_length, usOf_length, usOf_length])]
+
+/-- adding a constant to every utility and to the null value changes nothing -/
+theorem aux_shift (c : ℚ) (L : List ℚ) (i : ℕ) : aux (L.map (· + c)) i = aux L i := by
+  induction L generalizing i with
+  | nil => simp [aux]
+  | cons u t ih =>
+    cases t with
+    | nil => simp [aux]
+    | cons v rest =>
+      have := ih (i + 1)
+      simp only [List.map_cons] at this ⊢
+      simp only [aux, this, add_sub_add_right_eq_sub]
+
+theorem pointContrib_shift (c : ℚ) (labels order : List ℕ) (util : List ℚ) (null : ℚ) (u : ℕ) :
+    pointContrib labels order (util.map (· + c)) (null + c) u = pointContrib labels order util null u := by
+  have hus : usOf labels order (util.map (· + c)) (null + c) = (usOf labels order util null).map (· + c) := by
+    unfold usOf
+    rw [List.map_map]
+    apply List.map_congr_left
+    intro x _
+    exact getD_map_default (· + c) util null _
+  unfold pointContrib rankScores
+  have : (usOf labels order util null).map (· + c) ++ [null + c] = (usOf labels order util null ++ [null]).map (· + c) := by
+    simp
+  rw [hus, this, aux_shift]
+
+theorem getD_default_irrel {α : Type} {l : List α} {k : ℕ} (hk : k < l.length) (d d' : α) :
+    l.getD k d = l.getD k d' := by
+  simp [List.getD_eq_getElem?_getD, List.getElem?_eq_getElem hk]
+
+/-- the kernel is linear in the utility tables (entrywise form) -/
+theorem importances_lin_getD (n : ℕ) (a b : ℚ) (labels orders : List (List ℕ)) (U₁ U₂ : List (List ℚ))
+    (N₁ N₂ : List ℚ) (hU : U₁.length = U₂.length)
+    (hin : ∀ j, (U₁.getD j []).length = (U₂.getD j []).length) (hN : N₁.length = N₂.length)
+    (u : ℕ) (hu : u < n) :
+    (importances n labels orders (List.zipWith (List.zipWith (lin a b)) U₁ U₂)
+        (List.zipWith (lin a b) N₁ N₂)).getD u 0
+      = lin a b ((importances n labels orders U₁ N₁).getD u 0) ((importances n labels orders U₂ N₂).getD u 0) := by
+  have hc0 : (cols labels orders (List.zipWith (List.zipWith (lin a b)) U₁ U₂)
+      (List.zipWith (lin a b) N₁ N₂)).length = (cols labels orders U₁ N₁).length := by
+    simp [cols_length, hU, hN]
+  have hc2 : (cols labels orders U₂ N₂).length = (cols labels orders U₁ N₁).length := by
+    simp [cols_length, hU, hN]
+  rw [importances_getD _ _ _ _ _ _ hu, importances_getD _ _ _ _ _ _ hu, importances_getD _ _ _ _ _ _ hu,
+    hc0, hc2]
+  have hsum : ∑ j ∈ range (cols labels orders U₁ N₁).length,
+        pointContrib (labels.getD j []) (orders.getD j [])
+          ((List.zipWith (List.zipWith (lin a b)) U₁ U₂).getD j []) ((List.zipWith (lin a b) N₁ N₂).getD j 0) u
+      = a * ∑ j ∈ range (cols labels orders U₁ N₁).length,
+            pointContrib (labels.getD j []) (orders.getD j []) (U₁.getD j []) (N₁.getD j 0) u
+        + b * ∑ j ∈ range (cols labels orders U₁ N₁).length,
+            pointContrib (labels.getD j []) (orders.getD j []) (U₂.getD j []) (N₂.getD j 0) u := by
+    rw [Finset.mul_sum, Finset.mul_sum, ← Finset.sum_add_distrib]
+    apply Finset.sum_congr rfl
+    intro j hj
+    have hj' := Finset.mem_range.mp hj
+    rw [cols_length] at hj'
+    have e1 : (List.zipWith (List.zipWith (lin a b)) U₁ U₂).getD j []
+        = List.zipWith (lin a b) (U₁.getD j []) (U₂.getD j []) :=
+      getD_zipWith (List.zipWith (lin a b)) U₁ U₂ [] [] j hU
+    have e2 : (List.zipWith (lin a b) N₁ N₂).getD j 0 = lin a b (N₁.getD j 0) (N₂.getD j 0) := by
+      rw [getD_default_irrel (by simp [← hN]; omega) 0 (lin a b 0 0)]
+      exact getD_zipWith (lin a b) N₁ N₂ 0 0 j hN
+    rw [e1, e2, pointContrib_lin _ _ _ _ _ _ _ _ _ (hin j)]
+    rfl
+  rw [hsum]
+  unfold lin
+  ring
+
+theorem importances_lin (n : ℕ) (a b : ℚ) (labels orders : List (List ℕ)) (U₁ U₂ : List (List ℚ))
+    (N₁ N₂ : List ℚ) (hU : U₁.length = U₂.length)
+    (hin : ∀ j, (U₁.getD j []).length = (U₂.getD j []).length) (hN : N₁.length = N₂.length) :
+    importances n labels orders (List.zipWith (List.zipWith (lin a b)) U₁ U₂) (List.zipWith (lin a b) N₁ N₂)
+      = List.zipWith (lin a b) (importances n labels orders U₁ N₁) (importances n labels orders U₂ N₂) := by
+  have hl : (importances n labels orders U₁ N₁).length = (importances n labels orders U₂ N₂).length := by
+    rw [importances_length, importances_length]
+  apply ext_getD (importances_length _ _ _ _ _) (by simp [importances_length])
+  intro u hu
+  have e := getD_zipWith (lin a b) (importances n labels orders U₁ N₁) (importances n labels orders U₂ N₂) 0 0 u hl
+  rw [getD_default_irrel (by simp [importances_length]; exact hu) (lin a b 0 0) 0] at e
+  rw [importances_lin_getD n a b labels orders U₁ U₂ N₁ N₂ hU hin hN u hu, e]
+
+/-- adding one constant to every utility and every null value does not change the kernel -/
+theorem importances_shift (n : ℕ) (c : ℚ) (labels orders : List (List ℕ)) (utils : List (List ℚ))
+    (nulls : List ℚ) :
+    importances n labels orders (utils.map (List.map (· + c))) (nulls.map (· + c))
+      = importances n labels orders utils nulls := by
+  have hc0 : (cols labels orders (utils.map (List.map (· + c))) (nulls.map (· + c))).length
+      = (cols labels orders utils nulls).length := by simp [cols_length]
+  apply ext_getD (importances_length _ _ _ _ _) (importances_length _ _ _ _ _)
+  intro u hu
+  rw [importances_getD _ _ _ _ _ _ hu, importances_getD _ _ _ _ _ _ hu, hc0]
+  congr 1
+  apply Finset.sum_congr rfl
+  intro j hj
+  have hj' := Finset.mem_range.mp hj
+  rw [cols_length] at hj'
+  have e1 : (utils.map (List.map (· + c))).getD j [] = (utils.getD j []).map (· + c) :=
+    getD_map_default (List.map (· + c)) utils [] j
+  have e2 : (nulls.map (· + c)).getD j 0 = nulls.getD j 0 + c := by
+    rw [getD_default_irrel (by simp; omega) 0 (0 + c)]
+    exact getD_map_default (· + c) nulls 0 j
+  rw [e1, e2, pointContrib_shift]
 
 end Ds.Kernel
